@@ -222,6 +222,19 @@ func collidingKeys(rng *rand.Rand, n int) [][]byte {
 			keys = append(keys, k)
 		}
 	}
+	if rng.Intn(3) == 0 {
+		// long colliding keys: a common suffix keeps the hash state equal (both 32-byte stripes are consumed before it)
+		suffix := make([]byte, []int{1, 65, 200, 4000}[rng.Intn(4)])
+		rng.Read(suffix)
+		for i := range keys {
+			keys[i] = append(keys[i], suffix...)
+		}
+		for _, k := range keys[1:] {
+			if xxhash.Sum64(k) != xxhash.Sum64(keys[0]) || string(k) == string(keys[0]) {
+				panic("long collision construction failed")
+			}
+		}
+	}
 	return keys
 }
 
